@@ -286,6 +286,27 @@ pub fn roundtrip_list(rep: &mut Report, bl: &BlockList, origin: &str) {
         Ok(Ok(b)) => b,
     };
     rep.count("write_outcome", "ok");
+    // the writer takes any iterator of blocks: one without an exact size (a filter, a generator)
+    // must produce the same bytes as the list itself
+    {
+        let filtered = mon::guard(|| {
+            let mut buf = vec![];
+            metadata::write_blocks(&mut buf, bl.blocks().filter(|_| true)).map(|()| buf).map_err(|e| crate::api::show(&e))
+        });
+        let generated = mon::guard(|| {
+            let mut it = blocks.clone().into_iter();
+            let mut buf = vec![];
+            metadata::write_blocks(&mut buf, std::iter::from_fn(move || it.next())).map(|()| buf).map_err(|e| crate::api::show(&e))
+        });
+        for (how, r) in [("filter", filtered), ("from_fn", generated)] {
+            match r {
+                Err(p) => rep.violation("panic", format!("write_blocks:{}", p.signature()), format!("{origin}: write_blocks over a {how} iterator: {} at {}", p.msg, p.location), replay()),
+                Ok(Ok(b)) if b == bytes => rep.count("write_iterator", how),
+                Ok(Ok(b)) => rep.violation("roundtrip", format!("write-depends-on-iterator-kind:{how}"), format!("{origin}: write_blocks over a {how} iterator wrote {} bytes that differ from the {} bytes written from the list (first difference at {:?})", b.len(), bytes.len(), b.iter().zip(&bytes).position(|(x, y)| x != y)), replay()),
+                Ok(Err(e)) => rep.violation("roundtrip", format!("write-depends-on-iterator-kind:{how}:refused"), format!("{origin}: write_blocks over a {how} iterator refused what it wrote from the list: {e}"), replay()),
+            }
+        }
+    }
     // reader must accept the writer's output and give back equal blocks
     let back = mon::guard(|| metadata::read_blocks(Cursor::new(&bytes)).collect::<Result<Vec<Block>, _>>().map_err(|e| crate::api::show(&e)));
     match back {
